@@ -69,6 +69,7 @@ class E2:
                     "passkey-types/src/passkey.rs"):
             srcs[rel] = open(os.path.join(self.ws.ws, rel)).read()
         self.ctx = C.Ctx(srcs)
+        self.ctx.fns = self.fns
 
     def find_fn(self, *needles, closure=True):
         cands = [n for n in self.fns if all(x in n for x in needles)]
